@@ -21,8 +21,10 @@ func init() {
 			"missing/unknown kid, tampered payload, stripped signature, two-segment and garbage forms, absent/foreign/near-miss/array audience, absent/foreign/empty/non-string nonce) mixed with honest ones, " +
 			"4 header/preamble configurations (incl. equal header names), memory and Redis; every stored ID token is re-verified by a stdlib-only verifier; " +
 			"distinct_nontrivial = distinct projected traces reaching a token exchange or write"
+		c.Sum.Rule += "; PLUS key-set separation: two filters with different static key sets under one kid, one JWKS provider, logins signed with the own and with the other filter's key, both orders of first use"
 		runHistories(c, 2, histProfile{N: n, MinLen: 8, MaxLen: 36, FaultRate: 6, AttackRate: 40, Stores: []string{"memory", "redis"}}, nil)
 		runFaultEnum(c, []string{"memory", "redis"})
+		keySetSeparation(c)
 	}
 	props["C04"] = func(c *Ctx) {
 		n := 500
